@@ -529,6 +529,20 @@ def apply_faults(world, data, faults, fname):
 
                     if new is not None:
                         data = data[:hs] + new + data[he:ce - n] + data[ce:]
+        elif kind == 'append_fragment':
+            # a fragment (the first part of another line ending) follows the
+            # content's final newline, and the length says so
+            spans = _spans(data)
+            i = int(f['section'])
+            frag = bytes.fromhex(f['hex'])
+
+            if 0 <= i < len(spans) and frag:
+                hs, he, ce = spans[i]
+                new = rewrite_header(data[hs:he], b'length',
+                                     str(ce - he + len(frag)).encode('ascii'))
+
+                if new is not None:
+                    data = data[:hs] + new + data[he:ce] + frag + data[ce:]
         elif kind == 'empty_content':
             spans = _spans(data)
             i = int(f['section'])
